@@ -28,6 +28,7 @@ EXPLANATION = (
     "InvalidEngineState or different answers. Not decided, and violated by the pinned tree on some programs (DESIGN section 6): the equality of the "
     "answers themselves."
     " Added after seed round 8: QH an unbuffered EvalOr / EvalDefine merges every further proof of an answer it already forwarded (add_disjunct unconditional)."
+    " Added after seed round 10: QI in EvalDefine.cycleDetected a node that calls an active goal a second time without closing a cycle registers as a sibling and is handed every answer found so far (self.notifyResultMe for each entry of the active node's results)."
 )
 TECHNIQUE = "static analysis: sibling-interface agreement, container conservation (stored-set == removed-set == inspected-set), decision tables of append/pop/cycle_exhausted, selection table"
 LEVEL_TEXT = EXPLANATION
@@ -362,6 +363,46 @@ def rule_qh(repo, col):
     col.floor("QH.nodes", n, 2)
 
 
+def rule_qi(repo, col):
+    """EvalDefine.cycleDetected, the call is not part of a cycle (a second, independent call of a goal that is still being evaluated - only any-order / unbuffered evaluation gets
+    there): the new node registers as a sibling AND receives every answer the active node has found so far; later answers reach it through the sibling list only"""
+    f = repo.func("problog.eval_nodes", "EvalDefine.cycleDetected")
+    m = f.module
+    cp = f.params[1]
+    regs = [st for st in ast.walk(f.node) if isinstance(st, ast.Call) and norm(st.func) == "%s.siblings.append" % cp]
+    if len(regs) != 1:
+        raise AnalysisError("cycleDetected: registration as a sibling not found")
+    parents = m.parents()
+    blk = parents.get(parents.get(regs[0]))  # Expr -> enclosing If
+    if not isinstance(blk, ast.If):
+        raise AnalysisError("cycleDetected: sibling branch not understood")
+    body = blk.body if any(regs[0] in list(ast.walk(x)) for x in blk.body) else blk.orelse
+    loops = [n for st in body for n in ast.walk(st) if isinstance(n, ast.For) and norm(n.iter) in ("%s.results" % cp, "%s.results.items()" % cp)]
+    if not loops:
+        col.fail("QI", m, regs[0], "cycleDetected registers the new node as a sibling of the active goal but does not go through %s.results: the answers found before the second call are "
+                 "never delivered to it - pair(X,Y) :- p(X), p(Y). loses pair(1,1), pair(2,1), pair(2,2) in the unbuffered engine" % cp,
+                 construct="cycleDetected: answers found so far not replayed to a sibling", function="EvalDefine.cycleDetected")
+        return
+    lp = loops[0]
+    if not (isinstance(lp.target, ast.Tuple) and len(lp.target.elts) == 2 and all(isinstance(e, ast.Name) for e in lp.target.elts)):
+        raise AnalysisError("cycleDetected: replay loop target not understood")
+    want = [e.id for e in lp.target.elts]
+    bad = []
+    npaths = 0
+    for p_ in dtable.extract_block(lp.body, opaque_loops=True):
+        if p_.end == "raise":
+            continue
+        npaths += 1
+        if not any(fn == "self.notifyResultMe" and a[:2] == want for fn, a, _ in p_.calls):
+            bad.append(", ".join("%s is %s" % (s_[:40], t_) for s_, t_, _ in p_.conds) or "always")
+    if npaths == 0:
+        raise AnalysisError("cycleDetected: replay loop has no normal path")
+    col.decide("QI", m, lp, not bad, "a sibling receives every answer the active goal has found so far",
+               "cycleDetected: an answer in %s.results is not handed to self.notifyResultMe(%s) (%s): the node that called the goal a second time never sees the answers found before "
+               "its call - pair(X,Y) :- p(X), p(Y). loses pair(1,1), pair(2,1), pair(2,2) in the unbuffered engine" % (cp, ", ".join(want), bad[0] if bad else ""),
+               construct="cycleDetected: answers found so far not replayed to a sibling", function="EvalDefine.cycleDetected")
+
+
 def run(repo, col):
     col.rule("QA", "every concrete message queue implements the whole protocol")
     col.rule("QB", "container conservation: stored == removed == counted / tested / iterated")
@@ -375,3 +416,5 @@ def run(repo, col):
     rule_qg(repo, col)
     col.rule("QH", "further proofs of a forwarded answer are merged")
     rule_qh(repo, col)
+    col.rule("QI", "a sibling call of an active goal receives the answers found so far")
+    rule_qi(repo, col)
